@@ -41,9 +41,16 @@ ASSUMPTIONS = [
     "empty hypergraph without a bound is excluded (the statement is silent about it)",
     "calls with both order and size, or with a node that is not in the hypergraph, are outside the "
     "statement and not generated",
+    "bounds: 2..max+1, max+2 and the fixed 8 (keys 2..M and length (M-1)^2 are documented for every "
+    "M >= 2, also far above the largest hyperedge); the warm-up of the history detours asks every "
+    "measure with every bound 2..8, positionally and by keyword, before the content is restored",
+    "DirectedHypergraph.remove_node(keep_edges=True) is not used as a history step: it drops the "
+    "node from the node set but leaves the hyperedges that contain it untouched, so it is not a "
+    "content-preserving detour (and outside the statement)",
 ]
 
 TOL = Fraction(1, 10 ** 12)
+BIG_BOUND = 8  # a fixed bound well above every generated hyperedge size (2..6)
 
 # --------------------------------------------------------------------------
 # building the object
@@ -69,11 +76,17 @@ def _warmup(h):
     from hypergraphx.measures import directed as DM
     DM.in_degree_sequence(h)
     DM.out_degree_sequence(h)
-    for M in (3, 4):
+    DM.hyperedge_signature_vector(h)
+    # every bound a clause may ask afterwards (2..7 and the fixed large one), in both call forms
+    for M in (2, 3, 4, 5, 6, 7, BIG_BOUND):
         DM.hyperedge_signature_vector(h, M)
         DM.exact_reciprocity(h, M)
         DM.strong_reciprocity(h, M)
         DM.weak_reciprocity(h, M)
+        DM.hyperedge_signature_vector(h, max_hyperedge_size=M)
+        DM.exact_reciprocity(h, max_hyperedge_size=M)
+        DM.strong_reciprocity(h, max_hyperedge_size=M)
+        DM.weak_reciprocity(h, max_hyperedge_size=M)
 
 
 @with_history(warmup=_warmup)
@@ -181,7 +194,8 @@ def check_signature(case, ctx):
         hyperedge_signature_vector(h, max_hyperedge_size=M)
     bound = maxsize if M is None else M
     ctx.label("bound=%s" % ("none" if M is None else "below_max" if M < maxsize else
-                            "max" if M == maxsize else "above_max"),
+                            "max" if M == maxsize else "max+1" if M == maxsize + 1 else
+                            "beyond_max+1"),
               "shapes=%d" % min(len({(len(s), len(t)) for s, t in keys}), 4))
     what = "hyperedge_signature_vector(max_hyperedge_size=%s) on %s" % (M, _show(keys))
     vec = np.asarray(got)
@@ -247,7 +261,8 @@ def check_reciprocity(case, ctx):
     maxsize = max([_size(k) for k in keys], default=0)
     got = {"exact": exact_reciprocity(h, M), "strong": strong_reciprocity(h, M),
            "weak": weak_reciprocity(h, M)}
-    ctx.label("bound=%s" % ("below_max" if M < maxsize else "max" if M == maxsize else "above_max"))
+    ctx.label("bound=%s" % ("below_max" if M < maxsize else "max" if M == maxsize else
+                            "max+1" if M == maxsize + 1 else "beyond_max+1"))
     ctx.trace = {"edges": _show(keys), "M": M,
                  "expected": {n: {k: str(v) for k, v in d.items()} for n, d in exp.items()}}
     for name in ("exact", "strong", "weak"):
@@ -383,9 +398,11 @@ def _directed(draw, tier):
 def _bound(draw, case, allow_none):
     sizes = [len(s) + len(t) for s, t in case["edges"]]
     top = max(sizes, default=2) + 1
-    choices = list(range(2, top + 1)) + [top - 1, top - 1, top]
+    # keys 2..M and length (M-1)^2 are documented for any M: also bounds well above the largest
+    # hyperedge (top = max + 1, top + 1 and the fixed BIG_BOUND)
+    choices = list(range(2, top + 1)) + [top - 1, top - 1, top, top + 1, BIG_BOUND]
     if allow_none:
-        choices += [None, None]
+        choices += [None, None, None]
     return draw(st.sampled_from(choices))
 
 
